@@ -144,3 +144,87 @@ func quotedPKWWorkload(c *Ctx, f func(entry, input, word string)) {
 		}
 	}
 }
+
+// pkwNamedWorkload: every sentence of the systematic set with one identifier replaced by a back-quoted name that
+// spells a pseudo-keyword used by some sentence of the same statement kind (the collisions that matter are with the
+// keywords of the same statement). f gets (entry, text).
+func pkwNamedWorkload(c *Ctx, f func(entry, input string)) {
+	set, _, _ := gen.SystematicSet()
+	r := gen.NewRand(1, 4400)
+	idx := 0
+	// pseudo-keywords per statement kind (kind = first two tokens): the union over all sentences of that kind
+	kindOf := func(s gen.Sentence) string {
+		k := s.Entry
+		for i := 0; i < 2 && i < len(s.Toks); i++ {
+			if s.Toks[i].Role == gen.KW || s.Toks[i].Role == gen.PKW {
+				k += " " + s.Toks[i].Text
+			}
+		}
+		return k
+	}
+	kindWords := map[string]map[string]bool{}
+	for _, s := range set {
+		k := kindOf(s)
+		if kindWords[k] == nil {
+			kindWords[k] = map[string]bool{}
+		}
+		for _, t := range s.Toks {
+			if t.Role == gen.PKW {
+				kindWords[k][t.Text] = true
+			}
+		}
+	}
+	for _, s := range set {
+		words := kindWords[kindOf(s)]
+		var ws []string
+		for w := range words {
+			switch w {
+			case "OFFSET", "ORDINAL", "SAFE_OFFSET", "SAFE_ORDINAL":
+				continue // scope probe (K4 family)
+			case "BOOL", "INT64", "FLOAT32", "FLOAT64", "DATE", "TIMESTAMP", "NUMERIC", "JSON", "TOKENLIST", "STRING", "BYTES":
+				continue // a back-quoted builtin type name is read as the builtin type (K4 family, scope probe)
+			}
+			ws = append(ws, w)
+		}
+		sortStrings(ws)
+		for i, t := range s.Toks {
+			if t.Role != gen.ID {
+				continue
+			}
+			for _, w := range ws {
+				if c.Mine(idx) {
+					s2 := gen.Sentence{Entry: s.Entry, Toks: append([]gen.Tok(nil), s.Toks...)}
+					name := w
+					if (i+len(w))%2 == 0 {
+						name = lowerASCII(w)
+					}
+					s2.Toks[i] = gen.Tok{Role: gen.ID, Text: name, Quote: true}
+					txt := gen.Render(r, s2, gen.RenderOpts{})
+					if len(txt) <= 4000 && gen.RelexGuard(txt, s2) {
+						f(s.Entry, txt)
+						c.Count("pkw_named_inputs", 1)
+					}
+				}
+				idx++
+			}
+		}
+	}
+}
+
+func lowerASCII(s string) string {
+	b := []byte(s)
+	for i, ch := range b {
+		if ch >= 'A' && ch <= 'Z' {
+			b[i] = ch + 32
+		}
+	}
+	return string(b)
+}
+
+func sortStrings(l []string) {
+	for i := 1; i < len(l); i++ {
+		for j := i; j > 0 && l[j] < l[j-1]; j-- {
+			l[j], l[j-1] = l[j-1], l[j]
+		}
+	}
+}
